@@ -57,6 +57,9 @@ class MeshTet1(MeshSimplex, Mesh3D):
 
         def finder(x, y, z, _search_all=False):
 
+            if np.size(x) == 0:  # no points
+                return np.array([], dtype=np.int32)
+
             if not _search_all:
                 ix = tree.query(np.array([x, y, z]).T,
                                 min(10, nelems))[1].flatten()
